@@ -324,5 +324,131 @@ theorem gen_entryStoreBuilderParse (tb : Bytes) :
           simp only [h0, h1, h2, or_self, if_false, ne_eq, not_false_eq_true, if_true]
           exact Outcome.same_refl _
 
+/-! ### `ClusterHeader::parse` (with `CompressionType::parse`): the header in front of the cluster tail -/
+
+def srcCompressionToNat : Generated.SrcCompression → Nat
+  | .none => 0
+  | .lz4 => 1
+  | .lzma => 2
+  | .zstd => 3
+
+/-- what `ClusterTail.decode` does with the first four bytes of a tail, as a function of its own -/
+def clusterHeaderModel (bs : Bytes) : Outcome ((Nat × Nat × Nat) × Bytes) :=
+  if bs.length < 4 then .err .format else
+  if (bs.getD 0 0).toNat > 3 then .err .format else
+  if (bs.getD 1 0).toNat = 0 ∨ (bs.getD 1 0).toNat > 8 then .err .format else
+  .ok (((bs.getD 0 0).toNat, (bs.getD 1 0).toNat, leNat (slice bs 2 2)), bs.drop 4)
+
+theorem takeLE_one' (b : UInt8) (rest : Bytes) : takeLE (b :: rest) 1 = .ok (b.toNat, rest) := by
+  simp [takeLE, leNat]
+
+def compressionOfNat : Nat → Generated.SrcCompression
+  | 0 => .none
+  | 1 => .lz4
+  | 2 => .lzma
+  | _ => .zstd
+
+theorem compressionTypeParse_cons (a : UInt8) (rest : Bytes) :
+    Generated.compressionTypeParse (a :: rest) =
+      if a.toNat > 3 then .err .format else .ok (compressionOfNat a.toNat, rest) := by
+  unfold Generated.compressionTypeParse
+  simp only [takeLE_one', Outcome.bind_ok]
+  generalize a.toNat = v
+  by_cases hv : v > 3
+  · obtain ⟨n, rfl⟩ : ∃ n, v = n + 4 := ⟨v - 4, by omega⟩
+    rw [if_pos hv]
+    rfl
+  · have : v = 0 ∨ v = 1 ∨ v = 2 ∨ v = 3 := by omega
+    rcases this with h | h | h | h <;> subst h <;> rfl
+
+theorem compressionOfNat_toNat (v : Nat) (h : ¬ v > 3) : srcCompressionToNat (compressionOfNat v) = v := by
+  have : v = 0 ∨ v = 1 ∨ v = 2 ∨ v = 3 := by omega
+  rcases this with h | h | h | h <;> subst h <;> rfl
+
+theorem byteSizeTryFrom_eq (x : Nat) :
+    Generated.byteSizeTryFrom x = if x = 0 ∨ x > 8 then .err .format else .ok x := by
+  by_cases hz : x = 0 ∨ x > 8
+  · simp only [hz, if_true]
+    rcases hz with hz | hz
+    · subst hz; rfl
+    · unfold Generated.byteSizeTryFrom
+      split <;> first | omega | rfl
+  · simp only [hz, if_false]
+    have : x = 1 ∨ x = 2 ∨ x = 3 ∨ x = 4 ∨ x = 5 ∨ x = 6 ∨ x = 7 ∨ x = 8 := by omega
+    rcases this with h | h | h | h | h | h | h | h <;> subst h <;> rfl
+
+/-- **The cluster header is parsed as the source parses it**: `ClusterHeader::parse` and `CompressionType::parse`,
+    translated on every run — compression byte (0..3, anything else a format error), offset width (a `ByteSize`,
+    1..8), blob count on two bytes — answer on every byte string what the model's `ClusterTail.decode` computes from
+    the first four bytes of a tail. -/
+theorem gen_clusterHeaderParse (bs : Bytes) :
+    (Generated.clusterHeaderParse bs).map' (fun r => ((srcCompressionToNat r.1.1, r.1.2.1, r.1.2.2), r.2)) =
+      clusterHeaderModel bs := by
+  unfold Generated.clusterHeaderParse clusterHeaderModel
+  match bs with
+  | [] => rfl
+  | a :: rest =>
+    rw [compressionTypeParse_cons]
+    by_cases ha : a.toNat > 3
+    · simp only [ha, if_true, Outcome.bind_err, Outcome.map'_err, List.getD_cons_zero]
+      split <;> rfl
+    · simp only [ha, if_false, Outcome.bind_ok, List.getD_cons_zero]
+      match rest with
+      | [] => simp [takeLE, Outcome.map']
+      | b :: rest2 =>
+        simp only [takeLE_one', Outcome.bind_ok, byteSizeTryFrom_eq, List.getD_cons_succ, List.getD_cons_zero]
+        by_cases hb : b.toNat = 0 ∨ b.toNat > 8
+        · simp only [hb, if_true, Outcome.bind_err, Outcome.map'_err]
+          split <;> rfl
+        · simp only [hb, if_false, Outcome.bind_ok]
+          by_cases hl : 2 ≤ rest2.length
+          · have T := takeLE_at (a :: b :: rest2) 2 2 (by simp only [List.length_cons]; omega)
+            simp only [List.drop_succ_cons, List.drop_zero] at T
+            have hlen : ¬ (a :: b :: rest2).length < 4 := by simp only [List.length_cons]; omega
+            simp only [T, Outcome.bind_ok, Outcome.map'_ok, hlen, if_false, compressionOfNat_toNat _ ha]
+            rfl
+          · have hlen : (a :: b :: rest2).length < 4 := by simp only [List.length_cons]; omega
+            have T : takeLE rest2 2 = .err .format := by unfold takeLE; rw [if_neg hl]
+            simp only [T, Outcome.bind_err, Outcome.map'_err, hlen, if_true]
+
+/-- **The whole cluster tail is parsed as the source parses it**: `ClusterHeader::parse` followed by the rest of
+    `ClusterBuilder::parse` (which receives the header as a value), both translated on every run, is
+    `ClusterTail.decode` of the model on every tail announcing at least one blob — the header checks are no longer
+    hypotheses. -/
+theorem gen_clusterTailParse (bs : Bytes) (c : Nat) (hcount : leNat (slice bs 2 2) = c + 1) :
+    (((Generated.clusterHeaderParse bs).bind fun r =>
+        Generated.clusterBuilderParse r.2 (srcCompressionToNat r.1.1, r.1.2.1, r.1.2.2)).map'
+        (fun r => (r.1.1.1, r.1.1.2.1, r.1.1.2.2, r.1.2))).Same
+      ((ClusterTail.decode bs).map' (fun t => (0 :: t.offsets ++ [t.dataSize], t.dataSize, t.comp, t.rawSize))) := by
+  have H := gen_clusterHeaderParse bs
+  unfold clusterHeaderModel at H
+  by_cases h4 : bs.length < 4
+  · simp only [h4, if_true] at H
+    have : ClusterTail.decode bs = .err .format := by unfold ClusterTail.decode; simp only [h4, if_true]
+    rw [this]
+    cases hx : Generated.clusterHeaderParse bs <;> rw [hx] at H <;> simp [Outcome.map'] at H
+    subst H
+    exact Outcome.same_refl _
+  · by_cases hcomp : (bs.getD 0 0).toNat > 3
+    · simp only [h4, hcomp, if_true, if_false] at H
+      have : ClusterTail.decode bs = .err .format := by unfold ClusterTail.decode; simp only [h4, hcomp, if_true, if_false]
+      rw [this]
+      cases hx : Generated.clusterHeaderParse bs <;> rw [hx] at H <;> simp [Outcome.map'] at H
+      subst H
+      exact Outcome.same_refl _
+    · by_cases hosz : (bs.getD 1 0).toNat = 0 ∨ (bs.getD 1 0).toNat > 8
+      · simp only [h4, hcomp, hosz, if_true, if_false] at H
+        have : ClusterTail.decode bs = .err .format := by
+          unfold ClusterTail.decode; simp only [h4, hcomp, hosz, if_true, if_false]
+        rw [this]
+        cases hx : Generated.clusterHeaderParse bs <;> rw [hx] at H <;> simp [Outcome.map'] at H
+        subst H
+        exact Outcome.same_refl _
+      · simp only [h4, hcomp, hosz, if_false] at H
+        cases hx : Generated.clusterHeaderParse bs <;> rw [hx] at H <;> simp [Outcome.map'] at H
+        rename_i r
+        obtain ⟨⟨h1, h2, h3⟩, h5⟩ := H
+        simp only [Outcome.bind_ok, h1, h2, h3, h5, hcount]
+        exact gen_clusterBuilderParse bs c h4 hcomp hosz hcount
 
 end Jubako
